@@ -1,10 +1,52 @@
-"""Self-test of the rules: AST-computed single edits on scratch copies (thorough tier).  Filled per property."""
+"""Self-test of the rules (thorough tier), on scratch copies under a temp dir, removed afterwards:
+(1) every AST-computed single edit and every kept seeded change that names a rule of the property must produce a NEW
+    violation of that rule (sa/mutations.py);
+(2) invariance: the (rule key, status) set of the property must be identical on a copy of the tree in which every module
+    has been replaced by ast.unparse(ast.parse(source)) -- comments, layout, quoting and line numbers change, behaviour
+    does not.  A difference means a rule depends on the text's form: a false alarm (or a blind spot) in waiting."""
 from __future__ import annotations
+
+import ast
+import os
+import shutil
+import tempfile
+
+
+def _invariance(prop: str) -> dict:
+    from . import report
+    from .core import repo_root
+    from .run import Ctx, load_rules
+
+    def keys(root):
+        ctx = Ctx("quick", 0, root=root)
+        r = report.Results(prop)
+        load_rules(prop).check(ctx, r)
+        return sorted((i.key, i.status) for i in r.instances)
+
+    tmp = tempfile.mkdtemp(prefix=f"verif-invariance-{prop}-")
+    try:
+        shutil.copytree(os.path.join(repo_root(), "rope"), os.path.join(tmp, "rope"), ignore=shutil.ignore_patterns("__pycache__"))
+        n = 0
+        for d, _, fs in os.walk(os.path.join(tmp, "rope")):
+            for f in fs:
+                if f.endswith(".py"):
+                    p = os.path.join(d, f)
+                    src = open(p, encoding="utf-8").read()
+                    open(p, "w", encoding="utf-8").write(ast.unparse(ast.parse(src)) + "\n")
+                    n += 1
+        a, b = keys(None), keys(tmp)
+        diff = sorted(set(a) ^ set(b))
+        return {"modules_reformatted": n, "instances": len(a), "differences": [list(x) for x in diff[:10]]}
+    finally:
+        shutil.rmtree(tmp, ignore_errors=True)
 
 
 def run(prop: str, seed: int) -> dict:
-    try:
-        from . import mutations
-    except ImportError:
-        return {"variants": 0, "note": "no mutations defined yet"}
-    return mutations.run(prop, seed)
+    from . import mutations
+
+    out = mutations.run(prop, seed)
+    inv = _invariance(prop)
+    out["invariance_under_reformatting"] = inv
+    if inv["differences"]:
+        out.setdefault("failed", []).append(f"verdicts differ on the reformatted tree: {inv['differences'][:3]}")
+    return out
